@@ -16,7 +16,8 @@
 From Coq Require Import ZArith QArith Qabs List Bool.
 From QV Require Import Model.Num Model.Rounding Model.Quantity Model.Dim Model.Registry
      Proofs.QuantityProofs Proofs.DimProofs Proofs.DimPush Proofs.RegistryProofs
-     Proofs.DirectoryProofs Proofs.DimInv Proofs.C02Proofs Proofs.C02Dim Proofs.C02Undef.
+     Proofs.DirectoryProofs Proofs.DimInv Proofs.C02Proofs Proofs.C02Dim Proofs.C02Undef
+     Gen.QuantityImpl Gen.OpsImpl Proofs.GenOpsEq.
 
 (* resolution of a term against the directory: what it returns denotes the term *)
 Theorem C02_resolve_sound : forall dm s x r,
@@ -206,6 +207,38 @@ Theorem C02_div_undefined_if_no_type : forall dm s u v cu cv,
   resolve s (nf_mul (ru_nf u) (nf_inv (ru_nf v))) = None.
 Proof. exact R_div_undefined_if_no_type. Qed.
 Print Assumptions C02_div_undefined_if_no_type.
+
+(* the operators the theorems above are about ARE the code: Unit.__mul__,
+   __truediv__, __rtruediv__, _pow, __pow__ and Quantity.__mul__, __truediv__,
+   __rtruediv__, __pow__ of src/quantity/__init__.py are re-translated on every
+   run, once per kind of second operand (Gen/OpsImpl.v, fail-closed translator
+   translate/oplayer.py), and — combined by Python's operator dispatch
+   (mul_code, div_code, pow_code in Proofs/GenOpsEq.v) — are equal to the model's
+   operators on every state, every cache content and all operands *)
+Theorem C02_model_is_translated_code : forall s dm ce,
+  (forall u v, unit_mul_impl s u v = unit_mul s u v) /\
+  (forall u v, unit_div_impl s u v = unit_div s u v) /\
+  (forall u k, unit_pow_impl s u k = (s, unit_pow s u k)) /\
+  (forall x y, op_mul s dm x y = mul_code s dm ce x y) /\
+  (forall x y, op_div s dm ce x y = div_code s dm ce x y) /\
+  (forall x k, op_pow s dm x k = pow_code s dm ce x k).
+Proof.
+  intros s dm ce. split; [exact (unit_mul_impl_eq s)|]. split; [exact (unit_div_impl_eq s)|].
+  split; [exact (unit_pow_impl_eq s)|]. split; [exact (op_mul_is_code s dm ce)|].
+  split; [exact (op_div_is_code s dm ce) | exact (op_pow_is_code s dm ce)].
+Qed.
+Print Assumptions C02_model_is_translated_code.
+
+(* a float operand is taken at its exact value *)
+Theorem C02_float_operands_like_rationals : forall s dm ce,
+  (forall u k, U_mul_real s dm ce u k = U_mul_num s dm ce u k) /\
+  (forall u k, U_div_real s dm ce u k = U_div_num s dm ce u k) /\
+  (forall u k, U_rdiv_real s dm ce u k = U_rdiv_num s dm ce u k) /\
+  (forall a u k, Q_mul_real s dm ce a u k = Q_mul_num s dm ce a u k) /\
+  (forall a u k, Q_div_real s dm ce a u k = Q_div_num s dm ce a u k) /\
+  (forall a u k, Q_rdiv_real s dm ce a u k = Q_rdiv_num s dm ce a u k).
+Proof. exact real_operands_like_rationals. Qed.
+Print Assumptions C02_float_operands_like_rationals.
 
 (* non-vacuity: a reachable directory with Length (m, km = 1000 m) and
    Area = Length**2 (reference unit m2): 3 km * 2 km = 6 000 000 m2 *)
